@@ -4,7 +4,7 @@
    FV, FP, devprog, potential rooting depth).  Remaining oracles: the photoperiodic day length (sin/cos/asin)
    and the power / exponential inside root().  Only statements here. *)
 From Coq Require Import ZArith Reals List Bool.
-From Hermes Require Import Num RUtil CropModel CropProofs DevModel DevProofs.
+From Hermes Require Import Num RUtil CropModel CropProofs DevModel DevProofs RootDistModel RootDistProofs.
 Import ListNotations.
 
 (* "development never runs backwards", with the factors COMPUTED by the model of the code instead of assumed
@@ -72,6 +72,39 @@ Theorem C09_root_depth_monotone_true : forall veloc tb t1 t2 : R, 0 <= veloc -> 
   pot_root_depth (root_qrez (root_pow_true veloc tb t1)) <= pot_root_depth (root_qrez (root_pow_true veloc tb t2)).
 Proof. exact root_depth_true_mono. Qed.
 
+(* root distribution (crop.go:583-636), for EVERY number of rooted layers: the root radius is positive in every layer
+   (the guard for layers >= 20 included), the root length density of every layer is >= 0, and for exponentials that
+   form a falling chain (true of exp(-Qrez*depth), last statement) the root shares of the layers are >= 0 and sum to
+   1 - exp(-Qrez*rooting depth), a number in [0,1) *)
+Theorem C09_root_distribution : forall (zrk : bool) (wumas pi dz : R) (es : list (R * R)),
+  (forall i : Z, 0 < wrad zrk i) /\
+  (0 < pi -> 0 < dz -> Forall (fun d => 0 <= d) (map fst (root_dist zrk wumas pi dz es))) /\
+  (chained 1 es ->
+   let shares := map snd (root_dist zrk wumas pi dz es) in
+   Forall (fun s => 0 <= s) shares /\ Rsum shares = 1 - last_hi es 1 /\ 0 <= Rsum shares < 1) /\
+  (forall q n, 0 <= q -> 0 <= dz -> chained 1 (es_true q dz 1 n)).
+Proof.
+  exact (fun zrk wumas pi dz es => conj (wrad_pos zrk) (conj (root_dist_dense zrk wumas pi dz es)
+          (conj (root_dist_shares zrk wumas pi dz es) (fun q n Hq Hd => es_true_chained_1 q dz n Hq Hd)))).
+Qed.
+
+(* dead roots (crop.go:563-568, 633-636): the N of the roots that died today is >= 0 while the root N concentration is,
+   no pool of any layer decreases by it, and what the fast and slow pools of ALL rooted layers receive together lies
+   between 0 and that amount — the crop module hands the soil no more N than the roots lost (the input C07 takes as given) *)
+Theorem C09_dead_root_n : forall (zrk : bool) (wumas wumalt wugeh pi dz : R) (es : list (R * R)),
+  0 <= wugeh -> chained 1 es ->
+  let wumm := dead_root_n wumas wumalt wugeh in
+  let shares := map snd (root_dist zrk wumas pi dz es) in
+  0 <= wumm /\
+  (forall share pool, 0 <= share -> pool <= dead_root_to_pool wumm share pool) /\
+  0 <= Rsum (map (fun s => dead_root_to_pool wumm s 0 + dead_root_to_pool wumm s 0) shares) <= wumm.
+Proof.
+  exact (fun zrk wumas wumalt wugeh pi dz es Hw Hc =>
+           conj (dead_root_n_nonneg wumas wumalt wugeh Hw)
+             (conj (fun share pool Hs => dead_root_pool_mono _ share pool (dead_root_n_nonneg wumas wumalt wugeh Hw) Hs)
+                   (dead_root_balance zrk wumas wumalt wugeh pi dz es Hw Hc))).
+Qed.
+
 (* non-vacuity: a winter-wheat day (4 degC, 20 vernalisation days so far, threshold 50, 14 h photoperiod against
    DAYL 20 / DLBAS 7) has all three factors strictly inside their ranges *)
 Example C09c_nonvacuous :
@@ -87,3 +120,5 @@ Print Assumptions C09_devprog_range.
 Print Assumptions C09_dev_run_sums_monotone.
 Print Assumptions C09_root_function_range.
 Print Assumptions C09_root_depth_monotone_true.
+Print Assumptions C09_root_distribution.
+Print Assumptions C09_dead_root_n.
